@@ -93,7 +93,15 @@ fn apply_config_param(config: &mut Config, param: &str, value: &str, line_num: u
             config.network.tcp_keepalive = if keepalive == 0 { None } else { Some(keepalive) };
         }
         "requirepass" => {
-            config.network.password = Some(value.to_string());
+            // The value is ONE argument in redis.conf syntax: quotes delimit it and are not part of the password
+            // (`requirepass "s3cret"` means s3cret), escapes inside double quotes are decoded; no argument, more than
+            // one, unbalanced quotes or bytes that are not UTF-8 stop the start-up instead of yielding some other password
+            let mut args = split_config_args(value)
+                .ok_or_else(|| ConfigParseError::Value(param.to_string(), line_num, value.to_string()))?;
+            if args.len() != 1 {
+                return Err(ConfigParseError::Value(param.to_string(), line_num, value.to_string()));
+            }
+            config.network.password = Some(args.remove(0));
         }
         "protected-mode" => {
             // We only support protected mode on
@@ -242,6 +250,80 @@ fn apply_config_param(config: &mut Config, param: &str, value: &str, line_num: u
     }
     
     Ok(())
+}
+
+/// Split a configuration value into arguments the way Redis's `sdssplitargs` does: white space separates; inside double
+/// quotes `\\xHH`, `\\n`, `\\r`, `\\t`, `\\b`, `\\a` are decoded and `\\c` stands for `c`; inside single quotes only `\\'` is an
+/// escape; a closing quote must be followed by white space or the end. `None`: unbalanced quotes, or not UTF-8
+fn split_config_args(value: &str) -> Option<Vec<String>> {
+    let s = value.as_bytes();
+    let is_space = |b: u8| b == b' ' || (9..=13).contains(&b);
+    let hex = |b: u8| (b as char).to_digit(16).map(|d| d as u8);
+    let mut args = Vec::new();
+    let mut i = 0;
+    loop {
+        while i < s.len() && is_space(s[i]) {
+            i += 1;
+        }
+        if i >= s.len() {
+            return Some(args);
+        }
+        let mut cur: Vec<u8> = Vec::new();
+        let (mut in_dq, mut in_sq) = (false, false);
+        loop {
+            if in_dq {
+                if i >= s.len() {
+                    return None;
+                }
+                if s[i] == b'\\' && i + 3 < s.len() && s[i + 1] == b'x' && hex(s[i + 2]).is_some() && hex(s[i + 3]).is_some() {
+                    cur.push(hex(s[i + 2]).unwrap() * 16 + hex(s[i + 3]).unwrap());
+                    i += 3;
+                } else if s[i] == b'\\' && i + 1 < s.len() {
+                    i += 1;
+                    cur.push(match s[i] { b'n' => b'\n', b'r' => b'\r', b't' => b'\t', b'b' => 8, b'a' => 7, c => c });
+                } else if s[i] == b'"' {
+                    if i + 1 < s.len() && !is_space(s[i + 1]) {
+                        return None;
+                    }
+                    i += 1;
+                    break;
+                } else {
+                    cur.push(s[i]);
+                }
+            } else if in_sq {
+                if i >= s.len() {
+                    return None;
+                }
+                if s[i] == b'\\' && i + 1 < s.len() && s[i + 1] == b'\'' {
+                    i += 1;
+                    cur.push(b'\'');
+                } else if s[i] == b'\'' {
+                    if i + 1 < s.len() && !is_space(s[i + 1]) {
+                        return None;
+                    }
+                    i += 1;
+                    break;
+                } else {
+                    cur.push(s[i]);
+                }
+            } else {
+                if i >= s.len() {
+                    break;
+                }
+                match s[i] {
+                    b if is_space(b) || b == 0 => {
+                        i += 1;
+                        break;
+                    }
+                    b'"' => in_dq = true,
+                    b'\'' => in_sq = true,
+                    b => cur.push(b),
+                }
+            }
+            i += 1;
+        }
+        args.push(String::from_utf8(cur).ok()?);
+    }
 }
 
 /// Parse a value that implements FromStr
